@@ -74,6 +74,7 @@ type UFun struct {
 	Args   []Sort
 	Ret    Sort
 	Axioms [][2]string
+	SMT    string // SMT symbol when different from Name (alias of an external function's symbol)
 }
 
 type ContractSet struct {
@@ -224,7 +225,13 @@ func (cs *ContractSet) loadFile(path, repo string) error {
 			if j < 0 || k < j {
 				return fail(fmt.Errorf("bad ufun declaration"))
 			}
-			uf := &UFun{Name: strings.TrimSpace(rest[:j]), Ret: specSort(strings.TrimSpace(rest[k+1:]))}
+			tail := strings.TrimSpace(rest[k+1:])
+			smtName := ""
+			if i := strings.Index(tail, "="); i >= 0 {
+				smtName = strings.TrimSpace(tail[i+1:])
+				tail = strings.TrimSpace(tail[:i])
+			}
+			uf := &UFun{Name: strings.TrimSpace(rest[:j]), Ret: specSort(tail), SMT: smtName}
 			for _, a := range strings.Split(rest[j+1:k], ",") {
 				if a = strings.TrimSpace(a); a != "" {
 					uf.Args = append(uf.Args, specSort(a))
